@@ -120,13 +120,18 @@ Qed.
 Lemma ibig_rem_floor_exact x y : y <> 0 -> ibig_rem_floor x y = x mod y.
 Proof.
   intros Hy. unfold ibig_rem_floor.
-  destruct (y <? 0) eqn:Ey.
-  - apply Z.ltb_lt in Ey. rewrite Z.abs_neq by lia.
-    replace (x mod y) with (x mod (- (- y))) by (f_equal; lia).
-    destruct (x mod - y =? 0) eqn:Er.
-    + apply Z.eqb_eq in Er. rewrite (Z_mod_zero_opp_r x (- y)) by auto. auto.
-    + apply Z.eqb_neq in Er. rewrite (Z_mod_nz_opp_r x (- y)) by auto. lia.
-  - apply Z.ltb_ge in Ey. rewrite Z.abs_eq by lia. reflexivity.
+  pose proof (Z.quot_rem x y Hy) as Hq.
+  pose proof (Z.rem_bound_abs x y Hy) as Hb.
+  set (r := Z.rem x y) in *. set (q := Z.quot x y) in *.
+  destruct (r =? 0) eqn:Er; cbn [negb andb].
+  - apply Z.eqb_eq in Er. apply Z.mod_unique with q; lia.
+  - apply Z.eqb_neq in Er.
+    destruct (r <? 0) eqn:Ea; destruct (y <? 0) eqn:Eb; cbn [Bool.eqb negb andb];
+      try apply Z.ltb_lt in Ea; try apply Z.ltb_ge in Ea; try apply Z.ltb_lt in Eb; try apply Z.ltb_ge in Eb.
+    + apply Z.mod_unique with q; lia.
+    + apply Z.mod_unique with (q - 1); lia.
+    + apply Z.mod_unique with (q - 1); lia.
+    + apply Z.mod_unique with q; lia.
 Qed.
 
 Lemma mod_exact a b : wf a -> wf b ->
